@@ -722,6 +722,26 @@ def rule_e(ctx):
     rep.add('C02.e', 'Frame.compute_frame_length / prefix + payload', f, ok,
             'the announced length is the sum of the prefix length and the data/metadata length' if ok else
             'the announced frame length is not prefix length + data/metadata length')
+    # ... and serialize_frame_prefix recomputes it on every encode: a frame object is encoded more than once (decoded
+    # and relayed, reassembled from fragments, reused), and the incremental writer announces frame.length
+    sp = base.methods['serialize_frame_prefix']
+    ps = [p for p in ctx.paths(sp, T, stable_attrs=True, inline_depth=0) if p.outcome == 'return']
+    ok = bool(ps)
+    detail = ''
+    for p in ps:
+        st = [e for e in p.events if e.kind == 'store' and e.data['target'][0] == 'attr' and
+              strip_epoch(e.data['target'][1]) == ('self',) and e.data['target'][2] == 'length']
+        if len(st) != 1:
+            ok, detail = False, ('a path of serialize_frame_prefix stores self.length %d times: the length announced '
+                                 'by the incremental writer can be left over from an earlier encode or decode' % len(st))
+            continue
+        t = strip_epoch(st[0].data['value'].term)
+        good = (t[0] == 'call' and t[1] == 'compute_frame_length') or (
+            t[0] == 'op' and t[1] == 'Add' and 'prefix' in repr(t) and '_compute_data_metadata_length' in repr(t))
+        if not good:
+            ok, detail = False, 'self.length is set to %s, not to the computed frame length' % fmt_term(t)
+    rep.add('C02.e', 'Frame.serialize_frame_prefix / length recomputed on every encode', sp, ok,
+            detail or 'self.length = compute_frame_length(middle) on all %d paths' % len(ps))
 
 
 def _blank_status(p, attr):
